@@ -10,6 +10,7 @@ RULE = ("TLC checks GetOK/ScanOK in every state of Dkv.tla (memtable queue, leve
 
 def run(c):
     q = c.tier == "quick"
+    dkvlib.run_scripts(c, False)
     dkvlib.exhaustive(c, dkvlib.consts(MaxOps=4, MaxReads=1), dkvlib.INV_READ, "Dkv reads exhaustive MaxOps=4")
     if not q:
         dkvlib.exhaustive(c, dkvlib.consts(MaxOps=5, MaxReads=1), dkvlib.INV_READ, "Dkv reads exhaustive MaxOps=5")
